@@ -334,6 +334,10 @@ def geq(a, b, depth=0):
         kinds_ok = a[2] == b[2] or (a[2] in ("MQ", "BQ") and b[2] == "S")
         if not (kinds_ok and a[3] == b[3]):
             return False
+        # a bound over the ACTIVE members only cannot bound an aggregate over all members
+        # (read-ahead unions still hold buffered hits of exhausted sub-matchers)
+        if a[4] and not b[4]:
+            return False
         if a[1] == b[1]:
             return True
         return a[1] == "sum" and b[1] == "max"
